@@ -123,16 +123,19 @@ def builders(inp):
 
 
 def replay(ctx, c):
+    """Every construction style; every aspect of every interaction.  A problem whose signature is a listed known
+    finding does not end the comparison: the remaining aspects of the same case are still compared."""
     for style, build in builders(c["inp"]):
-        bad = replay_one(c, build)
-        if bad:
-            sig, what = bad
+        reported = set()
+        for sig, what in replay_one(c, build):
+            if sig in reported: continue
+            reported.add(sig)
             k = c["case"]
-            ctx.violation(sig, "%s  [src=%s label=%s label_type=%s label_col=%s take=%s n=%d, built by %s] input=%s" % (
+            fresh = ctx.violation(sig, "%s  [src=%s label=%s label_type=%s label_col=%s take=%s n=%d, built by %s] input=%s" % (
                 what, k["src"], k["lk"], k["lt"], json.dumps(c["inp"]["labelcol"]["v"]) if c["inp"]["labelcol"]["t"] != "none" else None,
                 k["take"], k["n"], style, json.dumps(c["inp"]["lines"] or c["inp"]["rows"] or [c["inp"]["xs"], c["inp"]["ys"]])[:500]),
                 dict(case=c["case"], inp=c["inp"], expected=c["out"], style=style))
-            return
+            if fresh: return     # one unlisted violation per case is enough
 
 
 def _ctx_view(g):
@@ -147,9 +150,9 @@ def replay_one(c, build):
     try:
         got = list(build().read())
     except Exception as e:
-        return "%s:read:raises" % T, "reading the environment raised %s: %s" % (type(e).__name__, str(e)[:150])
+        yield "%s:read:raises" % T, "reading the environment raised %s: %s" % (type(e).__name__, str(e)[:150]); return
     if len(got) != len(out):
-        return "%s:count" % T, "%d interactions, expected %d" % (len(got), len(out))
+        yield "%s:count" % T, "%d interactions, expected %d" % (len(got), len(out)); return
     first = None
     for n, (g, o) in enumerate(zip(got, out)):
         # ---- context = the example's features without the label ----
@@ -157,12 +160,24 @@ def replay_one(c, build):
         try:
             seen = _ctx_view(g["context"])
         except Exception as e:
-            return "%s:context:raises" % T, "interaction %d: reading the context raised %s: %s" % (n, type(e).__name__, str(e)[:120])
+            yield "%s:context:raises" % T, "interaction %d: reading the context raised %s: %s" % (n, type(e).__name__, str(e)[:120]); seen = exp
         if not (seen == exp and type(seen) is type(exp)):
             sig = "%s:context" % T
             if isinstance(seen, dict) and isinstance(exp, dict) and all(seen.get(a) == b for a, b in exp.items()) and len(seen) == len(exp) + 1:
                 sig = "context:label-leak" + (":sparse-arff-by-index" if k["src"] == "arffS" and k["by"] == "index" else "")
-            return sig, "interaction %d: context %r, expected the features without the label %r" % (n, seen, exp)
+            yield sig, "interaction %d: context %r, expected the features without the label %r" % (n, seen, exp)
+        else:
+            # the same features by position / by key, for contexts that are views rather than plain containers
+            raw = g["context"]
+            try:
+                if isinstance(exp, list) and not isinstance(raw, list):
+                    byidx = [raw[j] for j in range(len(raw))]
+                    if byidx != exp: yield "%s:context:getitem" % T, "interaction %d: context read by position %r, expected %r" % (n, byidx, exp)
+                elif isinstance(exp, dict) and not isinstance(raw, dict):
+                    bykey = {key: raw[key] for key in exp}
+                    if bykey != exp: yield "%s:context:getitem" % T, "interaction %d: context read by key %r, expected %r" % (n, bykey, exp)
+            except Exception as e:
+                yield "%s:context:getitem" % T, "interaction %d: reading the context %r by position / key raised %s: %s" % (n, exp, type(e).__name__, str(e)[:100])
         # ---- one action set: the labels of the data ----
         if T in ("c", "m"):
             acts = g["actions"]
@@ -173,10 +188,10 @@ def replay_one(c, build):
             except Exception:
                 ok = False
             if not ok:
-                return "%s:actions" % T, "interaction %d: actions %r, expected exactly the labels %r" % (n, g["actions"], want)
-            if first is None: first = acts
+                yield "%s:actions" % T, "interaction %d: actions %r, expected exactly the labels %r" % (n, g["actions"], want)
+            elif first is None: first = acts
             elif acts != first:
-                return "%s:actions:vary" % T, "interaction %d offers %r but interaction 0 offers %r" % (n, acts, first)
+                yield "%s:actions:vary" % T, "interaction %d offers %r but interaction 0 offers %r" % (n, acts, first)
         # ---- rewards ----
         rw = g["rewards"]
         for a, (num, den) in o["rw"]:
@@ -187,9 +202,8 @@ def replay_one(c, build):
             except Exception as e:
                 sig = "%s:reward:raises" % T
                 if T == "m" and isinstance(e, TypeError) and isinstance(pa, (int, float)): sig = "m:reward:unsized-label"
-                return sig, "interaction %d: rewards(%r) raised %s: %s (expected %d/%d)" % (n, pa, type(e).__name__, str(e)[:100], num, den)
+                yield sig, "interaction %d: rewards(%r) raised %s: %s (expected %d/%d)" % (n, pa, type(e).__name__, str(e)[:100], num, den); continue
             if abs(val - num / den) > 1e-9:
                 sig = "%s:reward" % T
                 if T == "m" and isinstance(pa, str) and len(pa) > 1: sig = "m:reward:multichar-label"
-                return sig, "interaction %d: rewards(%r) = %r, expected %d/%d (true label %s)" % (n, pa, val, num, den, rw)
-    return None
+                yield sig, "interaction %d: rewards(%r) = %r, expected %d/%d (true label %s)" % (n, pa, val, num, den, rw)
